@@ -110,6 +110,22 @@ def run(ck):
     for name in cases.ALL:
         for case, spec in cases.ALL[name](ck.tier):
             check_case(ck, case, spec)
+    # the same obligations (purity above all) when the caller hands over arrays it owns: float ndarray, Series, masked array, and the
+    # time axis as an array / index - containers a test could wrap without copying
+    import inspect
+    for name, gen in cases.ALL.items():
+        params = inspect.signature(gen).parameters
+        sweeps = [('carrier', c) for c in ('ndarray', 'series', 'masked_nan', 'list_nan')] if 'carrier' in params else []
+        sweeps += [('tcarrier', c) for c in ('series', 'dtindex', 'epoch_array', 'dt64_s')] if 'tcarrier' in params else []
+        for param, value in sweeps:
+            seen = {}
+            for case, spec in gen('quick', **{param: value}):
+                cls = (case.meta.get('class'), case.n)
+                if case.n > 3 or case.n < 2 or seen.get(cls, 0) >= 2:
+                    continue
+                seen[cls] = seen.get(cls, 0) + 1
+                case.label = f'{case.label} [{param}={value}]'
+                check_case(ck, case, spec)
     for case, spec in cases.spike(ck.tier, min_n=0):
         if case.n == 0:
             check_case(ck, case, spec)
